@@ -197,6 +197,7 @@ func c12Run(c *fw.Ctx) {
 		secret  string // the upstream's shared HMAC key ("" = the default one)
 		https   bool   // the upstream is reached over TLS and offers HTTP/2
 		inject  bool   // the upstream injects a covered header (Authorization)
+		large   bool   // very large bodies: a refusal (nothing forwarded) is in order
 		drop    bool   // the backend reads the first request completely, then drops that connection without answering
 		methods []string
 		shapes  []shape
@@ -224,11 +225,153 @@ func c12Run(c *fw.Ctx) {
 	}
 	scenarios = append(scenarios, c12Scenario{name: "https-upstream-offering-h2", https: true, methods: []string{"GET", "POST"}, shapes: pickShapes("all-absent", "all-single"),
 		paths: paths[:2], queries: queries[:2], bodies: []bodyCase{bodies[0], bodies[2], bodies[3]}, conns: conns[:1]})
+	// bodies beyond the sizes at which buffers and limits usually sit (8 MiB, 32 MiB): forwarded whole and
+	// signed as received, or not forwarded at all
+	nine := bytes.Repeat([]byte("0123456789abcde\n"), 9<<16)
+	thirtyThree := bytes.Repeat([]byte("fedcba9876543210"), 33<<16)
+	scenarios = append(scenarios, c12Scenario{name: "large-bodies", large: true, methods: []string{"POST"}, shapes: pickShapes("all-absent"), paths: paths[:1], queries: queries[:1], conns: conns[:1],
+		bodies: []bodyCase{{name: "9MiB-chunked", body: nine, chunked: true}, {name: "9MiB-sized", body: nine}, {name: "33MiB-chunked", body: thirtyThree, chunked: true}}})
 	// shared keys of other shapes: one that happens to be well-formed base64, hex, padded base64
 	for _, sec := range []string{"changemechangeme", "0123456789abcdef0123456789abcdef", "c2VjcmV0MTIzNA=="} {
 		scenarios = append(scenarios, c12Scenario{name: "hmac-key-shape/" + sec, secret: sec, methods: []string{"GET", "POST"}, shapes: pickShapes("all-absent", "all-single"),
 			paths: paths[:1], queries: queries[:2], bodies: []bodyCase{bodies[0], bodies[2]}, conns: conns[:1]})
 	}
+	// Two uploads in flight: while the upstream has received the head of upload A and not yet read its body
+	// (a body larger than anything the sockets buffer), upload B is sent, forwarded and answered completely;
+	// then the upstream reads A's body. Both must arrive byte for byte, each with signatures over its own
+	// body. (Schedules: B alone, A alone, B inside A's upstream hop, A inside B's.)
+	c12InFlight := func() {
+		mk := func(ch byte) []byte {
+			b := bytes.Repeat([]byte{ch}, 24<<20)
+			for i := 0; i < len(b); i += 4096 {
+				b[i] = '\n'
+			}
+			return b
+		}
+		bodyOf := map[string][]byte{"/upload-A": mk('A'), "/upload-B": mk('b')}
+		drive(c, "two-uploads-in-flight", -1, func(x *explore.Exec, owned bool) {
+			combo := x.Choose("signatures", 3) // both | request signer only | shared key only
+			signer, hm := combo != 2, combo != 1
+			order := []string{"B-inside-A", "A-inside-B", "one-after-the-other"}[x.Choose("schedule", 3)]
+			hmacSecret, httpsUpstream = c12HMACSecret, false
+			ce := getEnv(signer, hm)
+			e := ce.e
+			sealed := e.Seal(sess)
+			send := func(path string) (*harness.Response, error) {
+				b := bodyOf[path]
+				raw := "POST " + path + " HTTP/1.1\r\nHost: " + hostA + "\r\nContent-Type: application/octet-stream\r\nCookie: " + harness.CookieName + "=" + sealed +
+					fmt.Sprintf("\r\nConnection: close\r\nContent-Length: %d\r\n\r\n", len(b)) + string(b)
+				return e.DoRaw(raw)
+			}
+			outer, inner := "/upload-A", "/upload-B"
+			if order == "A-inside-B" {
+				outer, inner = "/upload-B", "/upload-A"
+			}
+			var hits []harness.BackendHit
+			status := map[string]int{}
+			if order == "one-after-the-other" {
+				for _, p := range []string{outer, inner} {
+					r, err := send(p)
+					if err != nil {
+						panic(explore.HarnessError{Msg: "raw request failed: " + err.Error()})
+					}
+					status[p] = r.Status
+					hits = append(hits, r.Hits...)
+				}
+			} else {
+				arrived, release := make(chan struct{}, 1), make(chan struct{})
+				e.Backends["a"].BeforeBody = func(r *http.Request) {
+					if r.URL.Path == outer {
+						arrived <- struct{}{}
+						<-release
+					}
+				}
+				type res struct {
+					r   *harness.Response
+					err error
+				}
+				done := make(chan res, 1)
+				go func() { r, err := send(outer); done <- res{r, err} }()
+				select {
+				case <-arrived:
+				case r := <-done:
+					// the outer upload ended without its head reaching the upstream first (refused, or held back
+					// until the whole body was in): nothing is in flight at the upstream
+					e.Backends["a"].BeforeBody = nil
+					if r.err != nil {
+						panic(explore.HarnessError{Msg: "raw request failed: " + r.err.Error()})
+					}
+					status[outer] = r.r.Status
+					hits = append(hits, r.r.Hits...)
+					arrived = nil
+				}
+				ri, err := send(inner)
+				if arrived != nil {
+					if owned {
+						c.Res.Count("positive_uploads_overlapping_at_the_upstream", 1)
+					}
+					close(release)
+				}
+				if err != nil {
+					panic(explore.HarnessError{Msg: "raw request failed: " + err.Error()})
+				}
+				status[inner] = ri.Status
+				hits = append(hits, ri.Hits...)
+				if arrived != nil {
+					r := <-done
+					if r.err != nil {
+						panic(explore.HarnessError{Msg: "raw request failed: " + r.err.Error()})
+					}
+					status[outer] = r.r.Status
+					hits = append(hits, r.r.Hits...)
+				}
+				e.Backends["a"].BeforeBody = nil
+				hits = append(hits, e.Backends["a"].Take()...)
+			}
+			if !owned {
+				return
+			}
+			desc := map[string]interface{}{"schedule": order, "signer": signer, "hmac": hm, "status": status, "upstream_received": len(hits)}
+			viol := func(key, what string) {
+				c.Res.Violate(fw.Violation{Property: "C12", Key: "C12/two-uploads-in-flight/" + key, What: what, Scenario: "two-uploads-in-flight", Choices: x.Choices(), Detail: desc})
+			}
+			c.Res.Outcome(fmt.Sprintf("in-flight|%s|%v|%v|%v|hits=%d", order, signer, hm, status, len(hits)))
+			seen := map[string]int{}
+			for _, h := range hits {
+				seen[h.Path]++
+				want := bodyOf[h.Path]
+				if !bytes.Equal(h.Body, want) {
+					first := 0
+					for first < len(h.Body) && first < len(want) && h.Body[first] == want[first] {
+						first++
+					}
+					viol("body-changed/"+order, fmt.Sprintf("%s: the upstream received %d body bytes of which the first %d are the client's (client sent %d)", h.Path, len(h.Body), first, len(want)))
+				} else {
+					c.Res.Count("positive_uploads_intact", 1)
+				}
+				if signer {
+					if pm, ok := ce.pems[h.Header.Get("Kid")]; !ok || verifySSO(pm, h.Header.Get("Sso-Signature"), refCanon(h)) != nil {
+						viol("sso-signature-mismatch/"+order, h.Path+": Sso-Signature does not verify over the request as the upstream received it")
+					}
+				}
+				if hm {
+					auth := hmacauth.NewHmacAuth(crypto.SHA256, []byte(c12HMACSecret), "Gap-Signature", c12Covered)
+					if res, _, _ := auth.AuthenticateRequest(hitRequest(h)); res != hmacauth.ResultMatch {
+						viol("gap-signature-mismatch/"+order, h.Path+": Gap-Signature does not authenticate at the upstream")
+					}
+				}
+			}
+			for _, p := range []string{outer, inner} {
+				if seen[p] != 1 && status[p] < 400 {
+					viol("not-forwarded/"+order, fmt.Sprintf("%s was answered %d but reached the upstream %d times", p, status[p], seen[p]))
+				}
+			}
+			if c.Replay != nil {
+				c.Res.Note("%v", desc)
+			}
+		})
+	}
+	defer c12InFlight()
 	for _, sc := range scenarios {
 		sc := sc
 		if sc.secret == "" {
@@ -319,6 +462,11 @@ func c12Run(c *fw.Ctx) {
 					key = sc.name + "/" + key
 				}
 				c.Res.Violate(fw.Violation{Property: "C12", Key: "C12/" + key, What: what, Scenario: sc.name, Choices: x.Choices(), Detail: desc()})
+			}
+			if sc.large && len(resp.Hits) == 0 && resp.Status >= 400 {
+				c.Res.Count("large_bodies_refused", 1)
+				c.Res.Outcome(fmt.Sprintf("%s|%v|%v|%s|refused-%d", sc.name, signer, hm, bc.name, resp.Status))
+				return
 			}
 			if len(resp.Hits) != 1 && !(sc.drop && len(resp.Hits) > 0) {
 				viol("not-forwarded/"+method+"/"+bc.name, fmt.Sprintf("request was not forwarded exactly once (hits=%d status=%d)", len(resp.Hits), resp.Status))
@@ -438,6 +586,7 @@ func init() {
 			"signer {on,off} x HMAC {on,off} x method {GET,POST,HEAD (thorough: +PUT,DELETE,OPTIONS)} x client covered-header shapes (Content-Md5, Content-Type, Date, Authorization each {absent, single, two values, empty}: all four alike, or one varied) x other cookies {no,yes} x path {plain, %2F, %20, UTF-8} x query {none, duplicate keys, + and %20, semicolon separator and malformed escape} " +
 			"x body/framing {none, Content-Length: 0, text sized/chunked, 256-byte binary sized/chunked (thorough: 1 MiB)} x Connection header {plain, nominating covered headers}; " +
 			"oracle at the backend: Sso-Signature verifies (RSA PKCS#1 v1.5, SHA-256) under the PEM published at /oauth2/v1/certs[kid] over the documented canonical form of the received request; Gap-Signature authenticates with an independently constructed hmacauth; body byte-identical; every single mutation of a covered header, the path, the query or the body breaks verification; " +
+			"(large-bodies) 9 MiB chunked / sized and 33 MiB chunked uploads: forwarded whole and correctly signed, or not forwarded; (two-uploads-in-flight) two 24 MiB uploads x schedule {one after the other, B entirely inside A's upstream hop — after the upstream has A's head and before it reads A's body —, A inside B's} x signatures {both, signer only, shared key only}: each arrives byte for byte under signatures over its own body (sync.Pool replaced by a pool that always hands out the item returned last); " +
 			"distinct_nontrivial = distinct forwarded (signer, hmac, method, body, header shape, connection, path, query, cookies) cases",
 		Assumptions:    []string{"RSA/HMAC primitives and github.com/18F/hmacauth (used independently at the verifying side) are trusted", "canonical path is the decoded path, as in sso's own reference implementation"},
 		Parallel:       true,
